@@ -213,4 +213,28 @@ example : c17 fs1 ["p", "q", "r"] ["u"] (.found ["p"]) = true := by decide
 example : c17 fs1 ["p", "q", "r"] ["u"] .notFound = false := by decide
 example : c17 fs1 ["p", "q"] ["p", "q"] .hang = false := by decide
 
+/-! ## a relative start path -/
+
+theorem findRelUp_spec (fs : FS) (cwd : Dir) : ∀ (up : List String),
+    findRelUp fs cwd up = (match (relUps cwd up).find? (fun d => hasSpokfile (fs d)) with
+      | some d => .found d
+      | none => .notFound)
+  | [] => by
+    simp only [findRelUp, relUps, List.find?_cons, List.find?_nil]
+    cases hasSpokfile (fs cwd) <;> rfl
+  | c :: up => by
+    simp only [findRelUp, relUps, List.find?_cons]
+    cases h : hasSpokfile (fs (cwd ++ (c :: up).reverse))
+    · simpa using findRelUp_spec fs cwd up
+    · rfl
+
+/-- **C17 for a relative start.**  The loop terminates (structural recursion) and returns the nearest directory between
+    start and the working directory that holds a regular `spokfile`, else "none found". -/
+theorem C17_rel_spec (fs : FS) (cwd : Dir) (rel : List String) : findRel fs cwd rel = relSpec fs cwd rel :=
+  findRelUp_spec fs cwd rel.reverse
+
+theorem judge_accepts_model_rel (fs : FS) (cwd : Dir) (rel : List String) :
+    Spok.Judge.c17rel fs cwd rel (Spok.Judge.FindObs.ofResult (findRel fs cwd rel)) = true := by
+  simp [Spok.Judge.c17rel, C17_rel_spec]
+
 end Spok.Props.C17
